@@ -122,14 +122,21 @@ def gen_c18(tier, R):
              ('alt', ('grp', 0, ('c', 'a')), ('grp', 0, ('c', 'b'))), ('star', ('grp', 0, ('alt', ('c', 'a'), ('c', 'b')))), ('seq', ('bol',), ('c', 'a')), ('seq', ('c', 'b'), ('eol',)),
              ('bol',), ('eol',), ('seq', ('bol',), ('eol',)), ('cls', False, [('a', 'b')]), ('cls', True, [('a', 'a')]), ('plus', ('cls', False, [('a', 'c')])),
              ('seq', ('c', 'a'), ('seq', ('star', ('any',)), ('c', 'b'))), ('star', ('ncg', ('seq', ('c', 'a'), ('c', 'b')))), ('opt', ('grp', 0, ('seq', ('c', 'a'), ('c', 'b')))),
-             ('c', '.'), ('c', '+'), ('seq', ('c', 'a'), ('c', '.')), ('star', ('ncg', ('star', ('c', 'a'))))]
+             ('c', '.'), ('c', '+'), ('seq', ('c', 'a'), ('c', '.')), ('star', ('ncg', ('star', ('c', 'a')))),
+             # alternations whose branches carry groups (the group count of a pattern is not the count of groups that take part in a match)
+             ('alt', ('seq', ('grp', 0, ('c', 'a')), ('grp', 0, ('c', 'b'))), ('seq', ('grp', 0, ('c', 'x')), ('grp', 0, ('c', 'y')))),
+             ('seq', ('ncg', ('alt', ('grp', 0, ('c', 'a')), ('grp', 0, ('c', 'b')))), ('c', 'c')),
+             ('alt', ('grp', 0, ('c', 'a')), ('alt', ('grp', 0, ('c', 'b')), ('grp', 0, ('c', 'x')))), ('alt', ('grp', 0, ('c', 'a')), ('c', 'b')),
+             ('opt', ('grp', 0, ('c', 'q'))), ('seq', ('opt', ('grp', 0, ('c', 'q'))), ('grp', 0, ('c', 'a'))), ('grp', 0, ('grp', 0, ('c', 'a')))]
+    n_fixed = len(fixed)
     pats = [fix(p) for p in fixed]
     for _ in range(700 if tier == 'quick' else 60000):
         pats.append(fix(rnd_re(R, R.randint(1, 4))))
-    for p in pats:
+    for ip, p in enumerate(pats):
         p = number_groups(p, [0])
         text = render(p)
-        hs = hays if len(out) < 12000 and tier == 'thorough' else R.sample(hays, 6)
+        # the fixed patterns on every haystack; random ones always on the empty and on a (mostly) non-matching haystack plus a sample
+        hs = hays if ip < n_fixed or (len(out) < 12000 and tier == 'thorough') else ["", "zzz"] + R.sample(hays[1:-1], 4)
         for h in hs:
             rep = R.choice(reps)
             lim = R.choice([0.0, 1.0, 1.0, 2.0, 3.0, 5.0, 1.5, -1.0])
